@@ -16,7 +16,7 @@ from fsim.core import fx, xf
 # keyword or a member name the generator itself emits in the same scope
 NAMES = ["B", "a", "_a", "a1", "a10", "a2", "Aa", "ab", "abc", "x", "X", "x_1", "z9", "Zz", "q", "Q_", "kk", "k_k", "m0", "M0", "v", "w", "theta", "p_x", "b"]
 SENSOR_KEYS = ["alt", "gps", "imu", "sx", "s_2", "range", "baro", "b"]
-READING_SUFFIX = ["a", "B", "_", "z", "A"]
+READING_SUFFIX = ["a", "B", "u", "z", "A"]
 CONSTS = [0.5, 2.0, -1.5, 0.25, 3.0, -0.75, 1.0]
 
 
@@ -84,14 +84,18 @@ def draw(rng, *, max_states=4, max_controls=3, max_cal=2, max_sensors=3, max_rea
         used.add(key.upper())
         m = rng.randint(1, max_readings)
         rd = {}
+        # reading names whose sorted order differs from their declaration (insertion) order
+        stems = rng.sample(["r", "R", "bearing", "range", "az", "_z", "el", "Q"], m)
         for j in range(m):
-            rn = "r%d_%s" % (j, rng.choice(READING_SUFFIX))
+            rn = "%s%d_%s" % (stems[j], rng.randint(0, 9), rng.choice(READING_SUFFIX))
             if linear:
                 rd[rn] = sum((Float(rng.choice(CONSTS)) * t for t in rng.sample(S + C, min(len(S + C), rng.randint(1, 2)))), Float(0)) + rng.choice(S)
             else:
                 rd[rn] = _term(rng, S + C, 2) + rng.choice(S)
         key_kind = "Symbol" if (symbol_keys and m == 1 and rng.random() < 0.15) else "str"
-        sensors[key] = {"readings": {k: srepr(v) for k, v in rd.items()}, "noise": {k: fx(_noise(rng)) for k in rd}, "key_kind": key_kind}
+        sensors[key] = {"readings": {k: srepr(v) for k, v in rd.items()}, "noise": {k: fx(_noise(rng)) for k in _shuffled(rng, list(rd))}, "key_kind": key_kind}
+        if list(rd) != sorted(rd):
+            tags.append("readings_declared_unsorted")
         if m > 1:
             tags.append("multi_reading_sensor")
     containers = {k: rng.choice(["set", "list", "tuple", "frozenset"]) for k in ("state", "control", "calibration")}
@@ -145,10 +149,10 @@ def curated(name):
         return _mk(name, ["p", "q"], [], [], {"p": p, "q": q}, {}, {"pq": ({"r0": p, "r1": q}, {"r0": 0.5, "r1": 0.25}), "ponly": ({"r0": p}, {"r0": 0.5})}, {}, tags=["curated", "selector", "multi_reading_sensor"])
     if name == "cv":  # constant velocity with acceleration control
         x, v, a = Symbol("x"), Symbol("v"), Symbol("a")
-        return _mk(name, ["x", "v"], ["a"], [], {"x": x + dt * v, "v": v + dt * a}, {"a": 0.3}, {"pos": ({"r": x}, {"r": 0.2}), "both": ({"r0": x, "r1": x + v}, {"r0": 0.4, "r1": 0.7})}, {}, tags=["curated", "multi_reading_sensor"])
+        return _mk(name, ["x", "v"], ["a"], [], {"x": x + dt * v, "v": v + dt * a}, {"a": 0.3}, {"pos": ({"r": x}, {"r": 0.2}), "both": ({"r1": x + v, "r0": x}, {"r0": 0.4, "r1": 0.7})}, {}, tags=["curated", "multi_reading_sensor"])
     if name == "rect":  # rectangular: 2 readings of 3 states + calibration (stride bug family)
         x, v, w, c = Symbol("x"), Symbol("v"), Symbol("w"), Symbol("c")
-        return _mk(name, ["x", "v", "w"], [], ["c"], {"x": x + dt * v, "v": v, "w": w + dt * c}, {}, {"s": ({"r0": 2 * x + v + c, "r1": 3 * w + 5 * v}, {"r0": 0.5, "r1": 0.7})}, {"c": 0.25}, tags=["curated", "multi_reading_sensor"])
+        return _mk(name, ["x", "v", "w"], [], ["c"], {"x": x + dt * v, "v": v, "w": w + dt * c}, {}, {"s": ({"r1": 3 * w + 5 * v, "r0": 2 * x + v + c}, {"r0": 0.5, "r1": 0.7})}, {"c": 0.25}, tags=["curated", "multi_reading_sensor"])
     raise KeyError(name)
 
 
